@@ -17,7 +17,7 @@ import (
 )
 
 type vfC10Step struct {
-	Op   string `json:"op"`            // msg pres iq raw r a ack
+	Op   string `json:"op"`             // msg pres iq raw r a ack
 	Text string `json:"text,omitempty"` // stanza bytes as expected on the wire
 	N    int    `json:"n,omitempty"`    // ack: h
 	Rel  string `json:"rel,omitempty"`  // ack: how h relates to the send log
@@ -173,15 +173,15 @@ func vfGenC10(r *rand.Rand, c int, maxSteps int, senders int) *vfC10Case {
 }
 
 type vfC10Session struct {
-	c      *Client
-	obs    *vfObs
-	peer   *vfPeer
-	pc     *vfPeerConn
-	mark   int
-	ready  chan struct{}
-	acks   chan string
-	perr   error
-	mk     int
+	c     *Client
+	obs   *vfObs
+	peer  *vfPeer
+	pc    *vfPeerConn
+	mark  int
+	ready chan struct{}
+	acks  chan string
+	perr  error
+	mk    int
 }
 
 func vfC10Open() (*vfC10Session, error) {
